@@ -536,3 +536,96 @@ Proof.
     + destruct (keep3 j i k) eqn:K3; [right|now left]. apply G; auto; lia.
 Qed.
 End Placement.
+
+(* ---------------------------------------------------------------------------------------------- *)
+(* 8. from rows to orders: prefix unions, dropped classes                                          *)
+
+Lemma concat_firstn_map_filter (f : N -> bool) (o : order) k :
+  concat (firstn k (map (filter f) o)) = filter f (concat (firstn k o)).
+Proof.
+  revert k. induction o as [|c r IH]; intros k; [now rewrite !firstn_nil|].
+  destruct k as [|k]; [reflexivity|]. simpl. now rewrite filter_app, IH.
+Qed.
+
+Definition nonnil (c : list N) : bool := negb (is_nil c).
+
+Lemma drop_nil_prefix1 (o : order) k : exists k', concat (firstn k o) = concat (firstn k' (filter nonnil o)).
+Proof.
+  revert k. induction o as [|c r IH]; intros k; [exists 0%nat; now rewrite !firstn_nil|].
+  destruct k as [|k]; [exists 0%nat; reflexivity|]. destruct (IH k) as (k' & E). simpl.
+  destruct c as [|x c]; simpl.
+  - exists k'. exact E.
+  - exists (S k'). simpl. now rewrite E.
+Qed.
+
+Lemma drop_nil_prefix2 (o : order) k' : exists k, concat (firstn k' (filter nonnil o)) = concat (firstn k o).
+Proof.
+  revert k'. induction o as [|c r IH]; intros k'; [exists 0%nat; simpl; now rewrite !firstn_nil|].
+  destruct c as [|x c]; simpl.
+  - destruct (IH k') as (k & E). exists (S k). simpl. exact E.
+  - destruct k' as [|k']; [exists 0%nat; reflexivity|]. destruct (IH k') as (k & E). exists (S k). simpl. now rewrite E.
+Qed.
+
+Lemma sp_on_axis_drop_nil o axis : sp_on_axis o axis <-> sp_on_axis (filter nonnil o) axis.
+Proof.
+  unfold sp_on_axis. split; intros H k.
+  - destruct (drop_nil_prefix2 o k) as (k0 & ->). apply H.
+  - destruct (drop_nil_prefix1 o k) as (k0 & ->). apply H.
+Qed.
+
+Lemma fclasses_unfold f o : fclasses f o = filter nonnil (map (filter f) o).
+Proof. reflexivity. Qed.
+
+Lemma fclasses_true o : Forall (fun c => c <> []) o -> fclasses (fun _ => true) o = o.
+Proof.
+  intros H. rewrite fclasses_unfold. induction H as [|c r Hc _ IH]; [reflexivity|]. simpl.
+  rewrite filter_true. destruct c; [congruence|]. simpl. f_equal. exact IH.
+Qed.
+
+Lemma fclasses_false o : fclasses (fun _ => false) o = [].
+Proof. rewrite fclasses_unfold. induction o as [|c r IH]; [reflexivity|]. simpl. now rewrite filter_false. Qed.
+
+Lemma consec_contig (keep : N -> bool) S axis : NoDup axis -> incl S axis ->
+  (ones_consec (map (fun x => memN x S) (filter keep axis)) <-> contiguous (filter keep S) (filter keep axis)).
+Proof.
+  intros Hnd Hincl. rewrite (contiguous_iff_ones (filter keep S) (filter keep axis)) by now apply NoDup_filter.
+  assert (E : map (fun x => memN x (filter keep S)) (filter keep axis) = map (fun x => memN x S) (filter keep axis)).
+  { apply map_ext_in. intros x Hx. apply filter_In in Hx. destruct Hx as [_ Kx].
+    apply eq_true_iff_eq. rewrite !memN_In, filter_In. tauto. }
+  rewrite E. split; [|tauto]. intros H. split; [assumption|].
+  intros x Hx. apply filter_In in Hx. apply filter_In. split; [apply Hincl|]; tauto.
+Qed.
+
+Section Orders.
+Variables (alts axis : list N) (posn : nat -> nat).
+Let m := length alts.
+Hypothesis Hnd : NoDup alts.
+Hypothesis Hperm : Permutation alts axis.
+Hypothesis Hpos : forall a, (a < m)%nat -> (posn a < m)%nat /\ nth (posn a) axis 0%N = nth a alts 0%N.
+Variable s : asg.
+Hypothesis Hbin : leftof_binary s m.
+Hypothesis Hlf : forall x y, (x < m)%nat -> (y < m)%nat -> x <> y -> (s (LeftOf x y) = 1 <-> (posn x < posn y)%nat).
+Variable relax : nat -> nat -> nat -> list (Z * var).
+Variable keep : N -> bool.
+Hypothesis Hrel : forall i j k, (i < m)%nat -> (j < m)%nat -> (k < m)%nat ->
+  if keep (nth i alts 0%N) && keep (nth j alts 0%N) && keep (nth k alts 0%N)
+  then eval s (relax i j k) = 0 else eval s (relax i j k) <= -2.
+
+(* all the rows of one order *)
+Theorem order_rows_sem o : complete_on alts o ->
+  ((forall k, (k < length o)%nat -> forall c, In c (row_cstrs relax (sp_matrix_row alts o k)) -> holds s c) <->
+   sp_on_axis (fclasses keep o) (filter keep axis)).
+Proof.
+  intros (_ & _ & Hse).
+  rewrite fclasses_unfold, <- sp_on_axis_drop_nil, <- prefixes_enough, map_length.
+  assert (Hax : NoDup axis) by (eapply Permutation_NoDup; eauto).
+  split; intros H k Hk.
+  - rewrite concat_firstn_map_filter. apply consec_contig; [assumption| |].
+    + intros x Hx. apply concat_firstn_incl in Hx. apply Hse in Hx. eapply Permutation_in; eauto.
+    + apply (row_core alts axis posn Hnd Hperm Hpos s Hbin Hlf relax keep Hrel). exact (H k Hk).
+  - apply (row_core alts axis posn Hnd Hperm Hpos s Hbin Hlf relax keep Hrel (concat (firstn (S k) o))).
+    apply consec_contig; [assumption| |].
+    + intros x Hx. apply concat_firstn_incl in Hx. apply Hse in Hx. eapply Permutation_in; eauto.
+    + rewrite <- concat_firstn_map_filter. now apply H.
+Qed.
+End Orders.
